@@ -21,6 +21,8 @@ func main() {
 		os.Exit(cmdCheck(os.Args[2:]))
 	case "loops":
 		os.Exit(cmdLoops(os.Args[2:]))
+	case "dump":
+		os.Exit(cmdDump(os.Args[2:]))
 	case "replay":
 		os.Exit(cmdReplay(os.Args[2:]))
 	default:
